@@ -25,7 +25,7 @@ def project(rng):
     cpkg = rng.choice(["", "pk", "pk/sub"])
     deps_pool = [("//:a", "run_experiment", ""), ("//pk:b", "run_experiment", "pk"), ("//pk/sub:c", "run_experiment", "pk/sub"),
                  ("//:cmd", "run_command", ""), ("//pk:quiet", "run_command", "pk"), ("//:grp", "group", ""),
-                 ("//pk:inner", "combine", "pk")]
+                 ("//pk:inner", "combine", "pk"), ("//:fickle", "run_command", "")]
     tasks = []
     for ident, kind, pkg in deps_pool:
         name = ident.split(":")[1]
@@ -33,6 +33,12 @@ def project(rng):
             tasks.append(S.exp_task(pkg, name, deps=["//:a"], kind="group"))
         elif kind == "combine":
             tasks.append(S.exp_task(pkg, name, deps=["//:a", "//:cmd"], kind="combine"))
+        elif name == "fickle":
+            # writes output only once the history has switched it on: its output directory exists and is EMPTY after the
+            # first invocation and non-empty after a later one (emptiness must be judged after the dependency ran)
+            t = S.exp_task(pkg, name, kind="run_command")
+            t["run"] = "bash fickle.sh"
+            tasks.append(t)
         elif name == "quiet":
             t = S.exp_task(pkg, name, kind="run_command")
             t["run"] = "true"            # writes nothing: its output directory stays empty
@@ -44,7 +50,8 @@ def project(rng):
     tasks.append(S.exp_task(cpkg, "comb", deps=chosen, kind="combine"))
     tasks.append(S.exp_task(cpkg, "peek", deps=chosen, kind="run_command"))
     tasks.append(S.exp_task("", "top", deps=["//%s:comb" % cpkg, "//%s:peek" % cpkg], kind="group"))
-    return {"config": "disable_git = true\n", "tasks": tasks}, cpkg, chosen
+    files = {"fickle.sh": 'if [ -e "$CV_CTL/fickle_on" ]; then echo data > "$COND_OUT/data.txt"; fi\nexit 0\n'}
+    return {"config": "disable_git = true\n", "tasks": tasks, "files": files}, cpkg, chosen
 
 
 def observe(root, cpkg, chosen, seen):
@@ -78,6 +85,9 @@ def worker(scn):
         for st in scn["steps"]:
             if st["cmd"] == "plant":
                 S.apply_plant(root, st["entries"])
+                continue
+            if st["cmd"] == "ctl":
+                open(os.path.join(ctl, st["touch"]), "w").close()
                 continue
             if st["cmd"] == "git":
                 from .. import project as P
@@ -124,6 +134,9 @@ def scenario(rng, k):
                  {"cmd": "run", "argv": ["run", "//:top"], "clock": 400}]
         return {"project": proj, "cpkg": cpkg, "chosen": chosen, "steps": steps, "tag": k, "git": {"commits": 2}}
     steps = [{"cmd": "run", "argv": ["run", "//:top"], "clock": 100}]
+    if "//:fickle" in chosen or rng.random() < 0.3:
+        steps.append({"cmd": "ctl", "touch": "fickle_on"})
+        steps.append({"cmd": "run", "argv": ["run", "//:top"], "clock": 150})
     r = rng.random()
     if r < 0.3:
         steps.append({"cmd": "run", "argv": ["run", "//:top"], "clock": 200})
@@ -145,7 +158,7 @@ def main(tier):
     rep = C.Report(PROP, tier, "exploration")
     rng = random.Random(rep.seed + 18)
     RC.warm()
-    n = 60 if tier == "quick" else 1500
+    n = 200 if tier == "quick" else 3000
     scns = [scenario(rng, k) for k in range(n)]
     res = C.fork_map(worker, scns, timeout=1200)
     traces = []
